@@ -2,12 +2,14 @@
 (* behaviour generator: every edge of the Sse state graph, printed once together with a shortest
    path to its source state (history variable hidden from the state identity by VIEW) *)
 EXTENDS Sse, Json
+CONSTANT Bursts      \* sizes of send bursts offered to the generator (e.g. {Cap - 1}: the next two sends fill and overrun the queue)
 VARIABLE hist
 GInit == Init /\ hist = <<>>
 Obs == [conn |-> [h \in Handles |-> hstate[h] = "connected"], out |-> [i \in 1..Len(out) |-> out[i].id], term |-> terminated]
 GNext == \/ WriterPoll /\ hist' = Append(hist, [op |-> "Poll"])
          \/ \E h \in Handles :
               \/ \E e \in Events : Send(h, e) /\ hist' = Append(hist, [op |-> "Send", h |-> h, e |-> e])
+              \/ \E n \in Bursts : SendMany(h, "one", n) /\ hist' = Append(hist, [op |-> "Burst", h |-> h, n |-> n])
               \/ \E g \in Handles : Clone(h, g) /\ hist' = Append(hist, [op |-> "Clone", h |-> h, g |-> g])
               \/ Disconnect(h) /\ hist' = Append(hist, [op |-> "Disconnect", h |-> h])
               \/ DropHandle(h) /\ hist' = Append(hist, [op |-> "Drop", h |-> h])
